@@ -8,5 +8,7 @@ ViewOf(k) == IF cl[k].ok THEN ClassView(cl, fo, lst, k) ELSE [inv |-> <<>>, onca
 PrintStep ==
   (pc = "next") => PrintT(ToJson([hid |-> hist.hid, step |-> step, res |-> res[step],
                                   views |-> [k \in 1..step |-> ViewOf(k)], regd |-> regd,
+                                  lids |-> [k \in 1..step |-> IF cl[k].ok THEN [name \in Names |-> MemberListIds(cl, fo, lst, k, name)]
+                                                                        ELSE [name \in Names |-> <<>>]],
                                   alias |-> [k \in 1..step |-> <<InvListOf(cl, k, "inv"), InvListOf(cl, k, "oncall"), InvListOf(cl, k, "onset")>>]]))
 =============================================================================
